@@ -482,6 +482,13 @@ example : CmpOK (⟨fun x => |x|, fun a b => decide (a < b), fun x => x⟩ : Cmp
 example : (toMat 2 2 (fun i j => if i = j then (0 : ℚ) else 1)).det ≠ 0 := by
   simp [toMat, Matrix.det_fin_two]
 
+/-- the real square root is a square root on non-negative arguments (hypothesis of `rotation_correct_ordered`) -/
+example : ∀ z : ℝ, 0 ≤ z → Real.sqrt z * Real.sqrt z = z := fun _ h => Real.mul_self_sqrt h
+
+/-- an over-determined system (2 equations, 1 unknown) with non-singular normal matrix (hypotheses of `lstsq_normal`) -/
+example : ((toMat 2 1 (fun _ _ => (1 : ℚ))).transpose * toMat 2 1 (fun _ _ => (1 : ℚ))).det ≠ 0 := by
+  simp [toMat, Matrix.det_unique, Matrix.mul_apply]
+
 /-- a unit quaternion with all four components non-zero -/
 example : UnitQuat (⟨1/2, 1/2, 1/2, 1/2⟩ : Quat ℚ) := by
   unfold UnitQuat; norm_num
